@@ -117,9 +117,11 @@ def known_findings(pid):
     data = json.load(open(os.path.join(VERIF, 'known_findings.json')))
     return [f for f in data['findings'] if f['property'] == pid]
 
-def write_replay(pid, seed, payload):
+def write_replay(pid, seed, payload, tier='quick'):
     d = os.path.join(VERIF, 'replays'); os.makedirs(d, exist_ok=True)
     path = os.path.join(d, '%s-%d.json' % (pid, seed))
+    payload = dict(payload); payload['seed'] = seed; payload['tier'] = tier
+    payload['replay_cmd'] = 'python3 tools/check.py --property %s --replay %s' % (pid, path)
     json.dump(payload, open(path, 'w'), indent=1, default=lambda o: o.hex() if isinstance(o, bytes) else str(o))
     return path
 
@@ -133,6 +135,12 @@ def main():
     if a.tier not in ('quick', 'thorough'):
         a.tier = 'quick'
     seed = int(os.environ.get('VERIF_SEED', '1') or 1)
+    if a.replay:
+        # a replay file names the seed and tier of the run that produced it: every random choice derives from them, so the
+        # same cases (with their groups: twins, interruption sets, modes, ranks) and the same fault plan are regenerated
+        rp = json.load(open(a.replay))
+        seed = int(rp.get('seed', seed)); a.tier = rp.get('tier', a.tier)
+        log('replaying %s: seed %d, tier %s; recorded: %s' % (a.replay, seed, a.tier, (rp.get('what') or rp.get('kind') or '')[:300]))
     t0 = time.time()
     if a.setup:
         st = prepare()
@@ -143,7 +151,9 @@ def main():
     import props
     pid = a.property
     P = props.PROPS[pid]
-    st = prepare(mpi=bool(P.get('mpi')) or pid in ('C02', 'C04', 'C12', 'C19', 'C20'))
+    use_mpi = bool(P.get('mpi')) or pid in ('C02', 'C04', 'C12', 'C19', 'C20')
+    sanitizer_viol = []
+    st = prepare(mpi=use_mpi)
     broken = []           # stages / obligations that no longer check
     for k in ('translator', 'cxx', 'extraction'):
         if not st[k][0]:
@@ -161,15 +171,23 @@ def main():
 
     rng = random.Random(seed * 1000003 + int(pid[1:]))
     cov = {'evaluations': 0, 'distinct_nontrivial': 0, 'samples': [], 'classes': {}}
+    thorough_extra = {}
+    if a.tier == 'thorough' and not proofs['errors']:
+        # second opinion: the independent checker re-checks the compiled property file and everything it depends on
+        t1 = time.time()
+        rc, out = tie.sh('timeout 2400 coqchk -o -silent -Q . HepMC HepMC.Properties_%s' % pid, cwd=COQ, timeout=2500)
+        m = re.search(r'\* Axioms:(.*?)\n\s*\n\* Constants/Inductives relying on type-in-type:(.*?)\n', out, flags=re.S)
+        axioms = [x.strip() for x in (m.group(1).split('\n') if m else []) if x.strip() and x.strip() != '<none>']
+        unsafe = re.findall(r'relying on (?:type-in-type|unsafe \(co\)fixpoints)|positivity is assumed: (?!<none>)', out)
+        bad_ax = [x for x in axioms if not any(x.split()[0].endswith(k.split('.')[-1]) for k in ALLOWED_AXIOMS)]
+        thorough_extra['coqchk'] = {'exit': rc, 'axioms_of_all_loaded_libraries': axioms, 'wall_s': round(time.time() - t1, 1)}
+        if rc != 0 or 'type-in-type: <none>' not in out or 'unsafe (co)fixpoints: <none>' not in out or 'positivity is assumed: <none>' not in out:
+            broken.append({'stage': 'proof', 'detail': 'coqchk: ' + out.strip()[-600:], 'file': proofs['file']})
+        elif bad_ax:
+            broken.append({'stage': 'proof', 'detail': 'coqchk lists axioms outside the trusted base: ' + ', '.join(bad_ax), 'file': proofs['file']})
     diffs = []
     cxx_results = None
-    if a.replay:
-        rp = json.load(open(a.replay))
-        cases = [tuple(parse(l)[:4]) for l in rp.get('cases', [])]
-        cases = [(c[0], c[1], c[2], c[3]) for c in cases]
-        metas = [{} for _ in cases]
-    else:
-        cases, metas = props.generate(pid, rng, a.tier)
+    cases, metas = props.generate(pid, rng, a.tier)
     if st.get('cxx_exe') and st.get('model_exe') and cases:
         results = tie.run_pair(cases, st['cxx_exe'], st['model_exe'])
         cxx_results = results
@@ -194,9 +212,27 @@ def main():
         if not any(b['stage'] in ('cxx', 'extraction') for b in broken):
             broken.append({'stage': 'correspondence', 'detail': 'drivers unavailable'})
 
+    if a.tier == 'thorough' and cases and st.get('cxx_exe'):
+        # the same cases through an AddressSanitizer / UndefinedBehaviorSanitizer build of the driver: memory errors and
+        # undefined casts in the library abort the driver and show up as crashed cases
+        try:
+            t1 = time.time()
+            flags = '-g -fsanitize=address,undefined,float-cast-overflow -fno-sanitize-recover=all' + (' -DVERIF_MPI' if use_mpi else '')
+            san = tie.cxx_build(flags, 'asan-mpi' if use_mpi else 'asan')
+            env = dict(os.environ); env['ASAN_OPTIONS'] = 'detect_leaks=0'; env['VERIF_TMP'] = os.path.join(BUILD, 'tmp')
+            lines = [dump([i, t, cmd, args, []]) for (i, t, cmd, args) in cases]
+            outs = tie.run_driver(san, lines, env=env, chunk=40, timeout=3000)
+            crashed = [(c_, o) for c_, o in zip(cases, outs) if o.startswith('(crash')]
+            thorough_extra['sanitizer'] = {'cases': len(cases), 'crashed': len(crashed), 'wall_s': round(time.time() - t1, 1)}
+            for c_, o in crashed[:3]:
+                sanitizer_viol.append({'what': 'the sanitizer build (ASan + UBSan) aborts on this input: %s' % bytes.fromhex(o.split('"')[1]).decode(errors='replace')[-260:] if '"' in o else o[:200],
+                                       'cases': [dump(list(c_[:4]) + [[]])], 'observed': o[:400]})
+        except Stage as e:
+            thorough_extra['sanitizer'] = {'build_failed': e.detail[-300:]}
+
     # C++-only differential / oracle stage (things the model cannot execute: real engines, real MPI, system calls)
     extra = props.extra_checks(pid, rng, a.tier, st, cov) if st.get('cxx_exe') else []
-    violations = []
+    violations = list(sanitizer_viol)
     for v in extra:
         if v.get('tie'):
             # the implementation differs from the model without the property being shown violated
@@ -234,7 +270,7 @@ def main():
             'evaluations': cov['evaluations'], 'distinct_nontrivial': cov['distinct_nontrivial'],
             'rule': P.get('rule', ''), 'samples': cov['samples'][:4] or [{'obligations': proofs['theorems'][:5]}],
             'input_classes': cov['classes'], 'correspondence_diffs': len(diffs),
-            'extra': cov.get('extra', {}),
+            'extra': dict(cov.get('extra', {}), **thorough_extra),
             'stages': {k: st[k][0] for k in ('translator', 'coq', 'extraction', 'cxx')},
             'prepare_s': round(st.get('prepare_s', 0), 1),
         },
@@ -257,11 +293,11 @@ def main():
     if new_viol:
         v = new_viol[0]
         path = write_replay(pid, seed, {'property': pid, 'kind': 'failing-input', 'what': v['what'], 'cases': v.get('cases', []),
-                                        'observed': v.get('observed'), 'broken': broken, 'all': [x['what'] for x in new_viol[:20]]})
+                                        'observed': v.get('observed'), 'broken': broken, 'all': [x['what'] for x in new_viol[:20]]}, a.tier)
         log('VIOLATION property=%s replay=%s' % (pid, path))
     else:
         path = write_replay(pid, seed, {'property': pid, 'kind': 'no-failing-input-found', 'broken': broken,
-                                        'cases': [d['case'] for d in diffs[:5]], 'diffs': diffs[:5]})
+                                        'cases': [d['case'] for d in diffs[:5]], 'diffs': diffs[:5]}, a.tier)
         log('VIOLATION property=%s replay=%s no-failing-input-found' % (pid, path))
     sys.exit(1)
 
